@@ -265,7 +265,7 @@ def instantiate(env: Env, sig, cls, rng, given_inputs=None):
         else:
             kw[n] = [mk(f"in_{n}_{i}") for i in range(inst["nvar"])]
     avals, akw = {}, {}
-    arng = __import__("random").Random(hash((sig["name"], sig["version"])) & 0xFFFF)
+    arng = __import__("random").Random(__import__("zlib").crc32(sig["name"].encode()) * 8 + sig["version"])
     for a in sig["attrs"]:
         if inst["attrs"][a["name"]]:
             v = attr_value(env, a["kind"], arng)
@@ -520,7 +520,7 @@ def find_nodes(graph, domain):
     return out
 
 
-def compose_case(ck, env: Env, sig, position: str, rng, opset_reqs):
+def compose_case(ck, env: Env, sig, position: str, rng, opset_reqs, v2=None):
     """Place one application of a (typed) custom operator at `position` of a surrounding program,
     build, and inspect the ModelProto independently."""
     np, ts, op = env.np, env.ts, env.op
@@ -529,12 +529,14 @@ def compose_case(ck, env: Env, sig, position: str, rng, opset_reqs):
     sig["inst"] = dict(sig["inst"], typed_inputs=True)
     th, vh = hook_dicts(env, sig)
     cls = make_class(env, sig, th, vh)
-    case = {"kind": "compose", "position": position, "sig": strip(sig)}
+    if v2 is None:
+        v2 = sig["version"] + (rng.choice([-1, 1, 2]) if sig["version"] > 1 else 1)
+    case = {"kind": "compose", "position": position, "sig": strip(sig), "v2": v2}
     slots = [s for s in expected_slots(sig) if s]
     args = {s: env.argument(ts.Tensor(np.float32, (2,))) for s in slots}
     cond = env.argument(ts.Tensor(np.bool_, ()))
     # a second class of the same domain at another version: the import must be the maximum
-    sig2 = dict(sig, name=sig["name"] + "b", version=sig["version"] + rng.choice([-1, 1, 2]) if sig["version"] > 1 else sig["version"] + 1,
+    sig2 = dict(sig, name=sig["name"] + "b", version=v2,
                 inputs=[("i0", "single")], outputs=[("o0", "single")], attrs=[],
                 inst={"present": {}, "nvar": 0, "out_nvar": None, "attrs": {}, "typed_inputs": True})
     th2, _ = hook_dicts(env, sig2)
@@ -709,7 +711,7 @@ def reinfer_case(ck, env: Env, sig, rng):
         node, _, _, _ = instantiate(env, sig, cls, rng)
         before = [(k, v.type, v._value) for k, v in node.outputs.get_vars().items()]
         cls.infer_output_types = lambda self: {k: ts.Tensor(np.int64, (7,)) for k in th}
-        cls.propagate_values = lambda self: {k: np.zeros((7,), np.int64) for k in vh}
+        cls.propagate_values = lambda self: {k: np.full_like(v, 9.0) for k, v in vh.items()}  # conforming, different
         node.inference(True, True)
         after = [(k, v.type, v._value) for k, v in node.outputs.get_vars().items()]
     for (k, t0, v0), (_, t1, v1) in zip(before, after):
@@ -846,7 +848,7 @@ def replay(ck: core.Check, doc) -> bool:
     if c["kind"] == "node":
         run_case(ck, env, fix(c["sig"]), rng, [], [], stats)
     elif c["kind"] == "compose":
-        compose_case(ck, env, fix(c["sig"]), c["position"], rng, [])
+        compose_case(ck, env, fix(c["sig"]), c["position"], rng, [], c.get("v2"))
     elif c["kind"] == "exec":
         exec_case(ck, env, c["position"], c["k"], stats)
     elif c["kind"] == "reinfer":
